@@ -13,6 +13,7 @@ Robustness measures (all found necessary in practice with z3 5.1):
 """
 import multiprocessing as mp
 import os
+import sys
 import subprocess
 import tempfile
 import time
@@ -242,6 +243,10 @@ def _solve(i):
                         return done(status='unsat', note='proved after relevant instantiation (quantifier-free)')
         except z3.Z3Exception:
             pass
+    if _CFG.get('no_full'):
+        # retry of a member whose worker died / hung after it had reported a candidate counter-model: only the cheap,
+        # terminating stages above are repeated (the full quantified query is where z3 does not return)
+        return done(status='unknown', reason='not proved by the quantifier-free stages; a candidate counter-model exists')
     # 4. the full query
     s = _solver(full, neg, timeout)
     r = s.check()
@@ -350,7 +355,9 @@ def _worker(conn):
         idxs, stage = k
         if stage >= 2:
             z3.set_param('lp.dio', False)
-        if stage >= 3:
+        if stage == 9:
+            _CFG['no_full'] = True
+        elif stage >= 3:
             _CFG['seed'] = (7, 23)[min(stage - 3, 1)]
         conn.send(('done', _batch(idxs)))
         return          # one batch per process: every batch starts from the parent's z3 state (deterministic)
@@ -394,12 +401,14 @@ def _run_pool(work, procs, hard_limit_s):
                 try:
                     msg = conn.recv()
                 except (EOFError, OSError):          # the worker died (crash, out of memory): treated like a hang
+                    if os.environ.get('PYVC_POOL_DEBUG'):
+                        sys.stderr.write(f'[pool] worker for {w[1]} died after {time.time() - w[2]:.1f}s exit={w[0].exitcode}\n')
                     w[2] = -1e18
                     continue
                 if msg[0] == 'candidate':
                     candidates[msg[1]] = msg[2]
                     # the full query now most likely is satisfiable (where z3 may never return): tighter deadline
-                    w[2] = min(w[2], time.time() + max(30.0, 2.0 * _CFG['timeout'] / 1000.0) - hard_limit_s)
+                    w[2] = min(w[2], time.time() + max(30.0, 1.0 * _CFG['timeout'] / 1000.0) - hard_limit_s)
                     continue
                 for i, res in msg[1]:
                     results[i] = res
@@ -416,6 +425,9 @@ def _run_pool(work, procs, hard_limit_s):
             for conn, w in list(workers.items()):
                 if w[1] is not None and now - w[2] > hard_limit_s:
                     idxs, stage = w[1]
+                    if os.environ.get('PYVC_POOL_DEBUG'):
+                        sys.stderr.write(f'[pool] killing worker for {w[1]} after {now - w[2]:.1f}s '
+                                         f'({[_OBS[i][0].name for i in idxs][:3]})\n')
                     try:
                         w[0].kill()
                     except Exception:
@@ -426,7 +438,10 @@ def _run_pool(work, procs, hard_limit_s):
                     # a member whose relaxed query already produced a counter-model candidate is not retried: the
                     # full query is most likely satisfiable and z3 does not return on it
                     for i in [i for i in todo if i in candidates]:
-                        give_up(i, 'solver did not return on the full query; a candidate counter-model exists')
+                        if stage != 9:
+                            pending.append(([i], 9))      # once more, cheap stages only (see _solve)
+                        else:
+                            give_up(i, 'solver did not return on the full query; a candidate counter-model exists')
                     todo = [i for i in todo if i not in candidates]
                     if stage == 0 and len(todo) > 1:
                         pending.extend(([i], 1) for i in todo)         # retry the batch's members one by one
